@@ -1,7 +1,7 @@
 CHECKS = [
     entry("C06", "collector",
           technique="property-based testing (rapid): generated span/reload histories on the real collector under virtual time; reference model of decoration and root counts per forwarded span",
-          quick=dict(checks=400, budget_s=50),
+          quick=dict(checks=700, budget_s=70),
           thorough=dict(checks=8000, shards=16, budget_s=540),
           level_text="Generated histories of spans (all annotation kinds, late roots, stress path) and reloads of the five decoration options; each forwarded span is compared with the settings in force when it was forwarded and with reference span counts. Exploration.",
           level_note="Virtual time via testing/synctest; MockConfig mutated + Reload() stands for a config reload; hostname compared with os.Hostname()."),
